@@ -148,6 +148,16 @@ def gen_cases(ctx, rng):
         cases.append(dict(kind='center_image', IM=image(n, m), origin=o, crop=CROPS[rng.integers(3)],
                           axes=AXES[rng.integers(4)] if rng.random() < 0.5 else (0, 1),
                           order=int(rng.integers(0, 6)), ci=(odd, sq, ic)))
+    # F. center_image forwards order to set_center: fractional explicit origins with order 0 (whole-pixel move
+    #    after rounding, quarters incl. ties) and order 1 (eighths, float images), every flag / crop / axes
+    for _ in range(200 if ctx.quick else 2500):
+        n, m = int(rng.integers(1, 8)), int(rng.integers(1, 8))
+        order = int(rng.integers(0, 2))
+        den = 4 if order == 0 else 8
+        o = tuple(None if rng.random() < 0.1 else float(rng.integers(-2 * den, 3 * den)) / den for _ in (0, 1))
+        cases.append(dict(kind='center_image-frac', IM=image(n, m, force_float=(order == 1)), origin=o,
+                          crop=CROPS[rng.integers(3)], axes=AXES[rng.integers(4)], order=order,
+                          ci=(bool(rng.random() < 0.5), bool(rng.random() < 0.5), False)))
     return cases
 
 
@@ -213,6 +223,26 @@ def spec_whole(data, o0, o1, crop):
     vb = (b >= 0) & (b < m)
     out[np.ix_(va, vb)] = data[np.ix_(a[va], b[vb])]
     return out
+
+def spec_trim(data, odd_size, square):
+    """the documented trimming of center_image: odd_size drops the right-hand column of an even-width image;
+    square removes rows (half from each end, the odd one from the end) or columns (half from the left, the rest
+    from the right; with odd_size the last row of an even-height image first) until rows == cols"""
+    T = data
+    if odd_size and T.shape[1] % 2 == 0:
+        T = T[:, :T.shape[1] - 1]
+    r, c = T.shape
+    if square and r != c:
+        if r > c:
+            k = (r - c) // 2
+            T = T[k:k + c]
+        else:
+            if odd_size and r % 2 == 0:
+                T = T[:r - 1]
+                r -= 1
+            k = (c - r) // 2
+            T = T[:, k:k + r]
+    return T
 
 def whole_origin(v, n, order):
     """whole-pixel origin meant by the value v on an axis of length n"""
@@ -282,6 +312,20 @@ def evaluate():
         exp = spec_whole(trimmed, o[0], o[1], crop)
         ok = out.shape == exp.shape and np.array_equal(out, exp)
         msg = 'shape %%r -> %%r, expected %%r (centring of the %%r image)' %% (data.shape, out.shape, exp.shape, trimmed.shape)
+    elif clause == 'forward':
+        # center_image hands every option to set_center unchanged: same result as set_center on the trimmed
+        # image with the origin center_image uses (explicit, or find_origin of the trimmed image)
+        from abel.tools.center import find_origin
+        meth = P['method'] if isinstance(P['method'], str) else tuple(P['method'])
+        out = center_image(data, method=meth, odd_size=P['odd_size'], square=P['square'], crop=crop, axes=axes,
+                           order=order)
+        T = spec_trim(data, P['odd_size'], P['square'])
+        org = find_origin(T, method=meth, axes=axes) if isinstance(meth, str) else meth
+        ref = set_center(T, org, crop=crop, axes=axes, order=order)
+        ok = out.shape == ref.shape and np.array_equal(out, ref)
+        msg = 'shape %%r, set_center(trimmed %%r image, origin %%r, order=%%d) has shape %%r%%s' %% (
+            out.shape, T.shape, tuple(org), order, ref.shape,
+            '' if out.shape != ref.shape else ', max difference %%.3g' %% float(np.abs(out - ref).max()))
     elif clause in ('odd', 'square'):
         out = center_image(data, method=P['method'] if isinstance(P['method'], str) else tuple(P['method']),
                            odd_size=P['odd_size'], square=P['square'], crop=crop, axes=axes, order=order)
@@ -541,6 +585,54 @@ def search(ctx, rng, budget):
                                                                      'without its right-hand column' if mt != m else 'itself',
                                                                      shp, exp.shape),
                                       data, (None, None), axes, crop, order, **common))
+    # ---- 5. center_image forwards every option to set_center --------------------
+    from abel.tools.center import find_origin
+    for it in range(max(60, budget)):
+        n, m = (int(v) for v in rng.integers(2, 16, size=2)) if it % 5 else (int(rng.integers(20, 50)), int(rng.integers(20, 50)))
+        data = (rng.integers(1, 20, size=(n, m)) * [1.0, 1.0, 0.37][rng.integers(3)]).astype(
+            [np.float64, np.float64, np.int64][rng.integers(3)])
+        odd, sq = bool(rng.random() < 0.5), bool(rng.random() < 0.3)
+        T = spec_trim(data, odd, sq)
+        if 0 in T.shape:
+            continue
+        axes = AXES[rng.integers(4)]
+        order = int(rng.integers(0, 6))
+        r = rng.random()
+        if r < 0.55:       # explicit origin: None / integer / negative / fractional components inside the trimmed image
+            meth = []
+            for k in T.shape:
+                u = rng.random()
+                v = None if u < 0.12 else (float(rng.integers(0, k)) if u < 0.35 else
+                                           float(np.clip(rng.uniform(0, k - 1), 0, max(0, k - 1))))
+                if v is not None and rng.random() < 0.25 and v > 0:
+                    v -= k
+                meth.append(v)
+            meth = tuple(meth)
+        else:
+            meth = ['com', 'convolution', 'image_center', 'gaussian'][rng.integers(4 if min(T.shape) >= 8 else 3)]
+        crop = CROPS[rng.integers(3)]
+        n_eval += 1
+        distinct.add(('fwd', crop, repr(axes), order, odd, sq, meth if isinstance(meth, str) else
+                      tuple(None if v is None else (v < 0, v != int(v)) for v in meth)))
+        try:
+            org = find_origin(T, method=meth, axes=axes) if isinstance(meth, str) else meth
+            ref = set_center(T, org, crop=crop, axes=axes, order=order)
+        except Exception:       # noqa  (reference undefined, e.g. a failed fit: not a case)
+            continue
+        try:
+            out = center_image(data, method=meth, odd_size=odd, square=sq, crop=crop, axes=axes, order=order)
+            good = out.shape == ref.shape and np.array_equal(out, ref)
+        except Exception:       # noqa
+            good, out = False, None
+        if not good:
+            frac = (not isinstance(meth, str)) and any(v is not None and v != int(v) for v in meth)
+            hits.append(mkhit('forward', 'C12:center_image:forward:order=%d:%s:%s' % (
+                order, crop, meth if isinstance(meth, str) else ('fractional-origin' if frac else 'whole-origin')),
+                'center_image(method=%r, odd_size=%s, square=%s, crop=%r, axes=%r, order=%d) differs from set_center of '
+                'the trimmed image with the same options (shape %r vs %r)' % (
+                    meth, odd, sq, crop, axes, order, None if out is None else out.shape, ref.shape),
+                data, (None, None), axes, crop, order, method=meth if isinstance(meth, str) else list(meth),
+                odd_size=odd, square=sq))
     return hits, n_eval, len(distinct)
 
 
@@ -564,7 +656,10 @@ def run(ctx):
                         'numpy statement of the clause; (2) fractional origins, orders 1..5, blobs with empty margins: '
                         'total intensity, centroid, untouched axes, integer dtype; (3) center_image flags x shapes; (4) center_image with every '
                         'crop mode, axes selection, odd_size value and method (image_center, explicit whole-pixel / None / negative '
-                        'origins, com, convolution): odd width, result = centring of the image without its right-hand column. '
+                        'origins, com, convolution): odd width, result = centring of the image without its right-hand column; (5) center_image '
+                        'with every option (order 0..5, crop, axes, odd_size, square, explicit None / integer / negative / fractional '
+                        'origins and com / convolution / image_center / gaussian) = set_center of the documented trimming with the '
+                        'same options. '
                         'distinct = (crop, axes, parities, order, dtype kind, sign pattern) resp. (crop, axes, order, '
                         'dtype, negative) resp. (flags, parities, aspect); correspondence cases counted in evaluations only',
                    samples=[dict(kind=c['kind'], shape=list(c['IM'].shape), origin=[jsonable(v) for v in c['origin']],
